@@ -1,2 +1,4 @@
 #!/bin/bash
-cd "$(dirname "$0")" && exec ../common/build_generic.sh zconv
+# the model .vo files may have been rebuilt by another check since our make: bring them up to date first
+cd "$(dirname "$0")" && (cd ../../coq && timeout 900 make model/M_Llh.vo model/M_LlhPipe.vo > /dev/null 2>&1)
+exec ../common/build_generic.sh zconv
